@@ -1,19 +1,27 @@
 SPEC = dict(
     property='C13',
     level='other',
-    level_text='Bounded (labelled) on the real builders: apply_static_mods over 8 peptides x 6 rule sets x 5 terminal specs x 3 conflict modes '
+    level_text='Mixed. DEDUCTIVE (record model; any peptide, any offer, any depth of recursion): every form yielded by the recursive enumerator '
+               '_apply_variable_mods_rec keeps the original residues and every annotation other than the residue modifications, leaves the '
+               'positions before the current index as they were, newly modifies only positions for which modifications are offered, never '
+               'exceeds the budget of modified residues, in skip mode keeps every pre-existing residue modification intact, raises only '
+               'ValueError and only for an invalid mode, and the recursion terminates (measure: residues left); _variable_mods_builder hands '
+               'it the budget max_mods + (number of already modified residues), so every returned form has at most max_mods additional '
+               'modified residues. BOUNDED (labelled) on the real builders: apply_static_mods over 8 peptides x 6 rule sets x 5 terminal specs x 3 conflict modes '
                'against a per-site oracle (modifications on every matched residue / terminus and on no other; skip / append / overwrite; '
                'idempotence of skip; input not mutated; str == annotation); apply_variable_mods over 5 rule sets x 5 terminal specs x max_mods '
                '0..2(4) x 3 modes against an exhaustive subset enumeration of the eligible sites (exactly those forms, each once, input form '
                'included, in skip mode; residues kept / changes confined to matched sites / input included / no duplicates in the other modes). '
-               'The enumeration claim is a statement about the leaves of a recursion tree and is not expressed as a contract in this revision.',
+               'The exact-enumeration claim (every form exactly once) is a statement about the leaves of a recursion tree: bounded only.',
     level_note='regex site finder exercised with letters, character classes, overlapping and anchored consuming patterns (zero-width rule keys '
                'are outside the oracle).',
     design_ref='DESIGN.md section 6, C13',
-    technique='bounded run-time contract check against an exhaustive subset enumeration (labelled stand-in)',
+    contracts=['varmods'],
+    technique='weakest-precondition VCs from the real AST of the recursive enumerator and its builder against sidecar contracts (bag of yielded forms, recursion measure), discharged by z3 / cvc5; bounded run-time contract check against an exhaustive subset enumeration as labelled stand-in for exact enumeration and the static builder',
     bounded=[dict(name='C13-bounded', script='bounded/C13.py')],
     replay_finder='bounded/C13.py',
-    explanation='bounded check only in this revision',
-    proved_clauses=[], bounded_clauses=['static builder: per-site exactness, modes, idempotence', 'variable builder: exact enumeration (skip), weaker clause otherwise'],
-    uncovered_clauses=['zero-width regex rule keys'], assumptions=[], trusted_base=['bounded/C13.py'],
+    explanation='safety half of the variable builder proved (nothing else changes, budget, termination); exact enumeration and the static builder bounded',
+    proved_clauses=['variable builder: original residues and pre-existing modifications intact, changes only at offered positions, at most max_mods additional modified residues, terminates'],
+    bounded_clauses=['static builder: per-site exactness, modes, idempotence', 'variable builder: exact enumeration (skip), weaker clause otherwise'],
+    uncovered_clauses=['zero-width regex rule keys'], assumptions=['LC-DEEPCOPY'], trusted_base=['z3 5.1', 'cvc5 1.0.3', 'pyvc', 'bounded/C13.py'],
 )
